@@ -25,7 +25,15 @@ def torrent_doc(name, pl, files, npieces, single=False, announce=b"http://t/a"):
 
 
 def content_bytes(total, seed):
-    return bytes((seed * 7 + i * 13 + (i >> 8)) % 251 for i in range(total))
+    base = bytes((seed * 7 + i * 13 + (i >> 8)) % 251 for i in range(total))
+    style = seed % 6
+    if style == 1:                       # all zeros (sparse-file handling must still produce every byte)
+        return bytes(total)
+    if style == 2:                       # zeros in the second half: the content ends with zero pieces
+        return base[:total // 2] + bytes(total - total // 2)
+    if style == 3:                       # alternating runs of zeros
+        return bytes(0 if (i // 3) % 2 == 0 else base[i] for i in range(total))
+    return base
 
 
 def geometry_case(token, name, pl, lens, paths, single=False, npieces=None, seed=1, kind="geometry"):
